@@ -21,7 +21,8 @@ class XGen {
       case 2: return std::to_string(r.below(16));
       case 3: return std::to_string(r.below(300));
       case 4: return "#" + hexs((uint32_t)r.below(0x10000));
-      case 5: return "'" + std::string(1, (char)('a' + r.below(26))) + "'";
+      case 5: if (r.chance(1, 8)) { static const char *esc[] = {"\\t", "\\r", "\\n", "\\\\", "\\'", "\\\""}; return "'" + std::string(esc[r.below(6)]) + "'"; }
+              return "'" + std::string(1, (char)('a' + r.below(26))) + "'";
       case 6: return std::to_string(60000 + r.below(80000));       // straddles the immediate/pool boundary
       default: return std::to_string(r.below(100));
     }
@@ -157,13 +158,15 @@ public:
     if (r.chance(1, 2)) {
       body += "proc strout(array s, val n) is var i; { i := 0; while i < n do { put(s[i], 0); i := i + 1 } }\n";
       body += "func strword(array s, val k) is return s[k]\n";
-      auto lit = [&]() { std::string t; size_t n = (size_t)r.below(9); for (size_t q = 0; q < n; q++) { char c = (char)('a' + r.below(26)); if (r.chance(1, 12)) { t += "\\n"; continue; } t.push_back(c); } return "\"" + t + "\""; };
+      auto lit = [&]() { std::string t; size_t n = (size_t)r.below(9); for (size_t q = 0; q < n; q++) { char c = (char)('a' + r.below(26)); if (r.chance(1, 12)) { static const char *esc[] = {"\\n", "\\n", "\\t", "\\r", "\\\\", "\\'", "\\\""}; t += esc[r.below(7)]; continue; } t.push_back(c); } return "\"" + t + "\""; };
       int nc = 1 + (int)r.below(3);
       for (int q = 0; q < nc; q++) {
         if (r.chance(1, 2)) preludeCalls.push_back("strout(" + lit() + ", " + std::to_string(1 + r.below(2)) + ")");
         else preludeCalls.push_back("put(strword(" + lit() + ", 0), " + outStream() + ")");
       }
     }
+    // A string literal as the right operand of an operator (its address is loaded into breg).
+    if (!globals.empty() && r.chance(1, 10)) preludeCalls.push_back(globals[0] + " := " + std::to_string(r.below(9)) + " + \"" + std::string(1 + r.below(6), 'z') + "\"");
     if (r.chance(1, 3)) {
       body += "func rec(val n) is if n < 2 then return n else return rec(n - 1) + rec(n - 2)\n";
       preludeCalls.push_back("put(rec(" + std::to_string(r.below(9)) + "), 0)");
